@@ -357,6 +357,10 @@ func c16ResolveCheck(ctx *vfCtx, c c16ResolveCase) {
 			return
 		}
 	}
+	if honoured, _ := c16WKHonoured(c.WK); honoured && len(httpLog) > 1 {
+		ctx.Fail("C16/resolve/further-well-known-lookup", "ResolveServer(%q): %d well-known requests although the first reply was honourable (delegate %q)", c.Name, len(httpLog), c.WK.Delegate)
+		return
+	}
 	if len(httpLog) > 0 && !passesStep2 {
 		ctx.Class("note:well-known-requested-for-literal-or-port-name")
 	}
